@@ -346,6 +346,24 @@ def section_history():
                     fail("history", "a value already handed to the caller was modified by a later evaluation", hermitian=hermitian, seed=seed, index=k)
 
 
+def section_herm_flag_finding():
+    """Witness of known finding F-H: a Hermitian product of factors that are not adjoints of each other."""
+    global cases
+    cases += 1
+    X = np.array([[0, 1], [1, 0]], dtype=complex)
+    Y = np.array([[1, 2], [2, -1]], dtype=complex)
+    one2 = np.eye(2, dtype=complex)
+    A = BlockSeries(data={(0, 0, 0): one2, (0, 0, 1): 1j * X}, shape=(1, 1), n_infinite=1)
+    # B = (1 - i lam X)(1 + lam Y) truncated consistently: B0 = 1, B1 = Y - iX, B2 = -i X Y ; A B = 1 + lam Y + lam^2 (XX) - ... (order 1 is Hermitian)
+    B = BlockSeries(data={(0, 0, 0): one2, (0, 0, 1): Y - 1j * X}, shape=(1, 1), n_infinite=1)
+    p0 = cauchy_dot_product(A, B, hermitian=False)[0, 0, 1]
+    p1 = cauchy_dot_product(A, B, hermitian=True)[0, 0, 1]
+    if not np.allclose(p0, p0.conj().T):
+        fail("herm_flag_finding", "battery error: the order-1 product is not Hermitian")
+    if not np.allclose(p0, p1):
+        fail("herm_flag_finding", "hermitian=True changes the (Hermitian) order-1 element of a product whose factors are not adjoint pairs", plain=p0.tolist(), flagged=p1.tolist())
+
+
 for name in sections:
     try:
         globals()["section_" + name]()
